@@ -31,7 +31,7 @@ RULE = ("op sequences (tx / serviceSends / serviceReceives / serviceReceiveOnce 
         "hits every model branch for every class; a case is non-trivial when it has >= 2 tx calls and >= 1 partial "
         "accept or would-block answer on a send that was actually attempted")
 MODELLED = ["kernel/OpenSSL socket behaviour (scripted fake socket: send takes a prefix of the buffer it is given, "
-            "recv returns chunks, errors are OSError/ssl.SSLError instances with args[0] = code; after a chunk marked dead, i.e. read after the peer reset, getpeername() raises ENOTCONN)",
+            "recv returns chunks, errors are OSError/ssl.SSLError instances with args[0] = code; after shutdown(SHUT_RD) every recv reports end of stream, after shutdown(SHUT_WR) every send fails with EPIPE; after a chunk marked dead, i.e. read after the peer reset, getpeername() raises ENOTCONN)",
             "Python bytearray extend / del [:n] / slicing (as list append, skipn, firstn)",
             "io.BytesIO and bytes %-formatting inside WireLog (each write observed as one record)",
             "OpenSSL's rule that a write retried after WANT_WRITE may see a moved/grown buffer (CPython sets "
@@ -538,7 +538,7 @@ def oracle(case, obs):
     if case.get("drain") and all_benign and obs["connected"]:
         if obs["cutoff"] or txbs or ksent != queued:
             return "healthy connection serviced len(txbs) times did not deliver everything"
-    elif case.get("drain") and not obs["cutoff"] and obs["connected"]:
+    elif case.get("drain") and not obs["cutoff"] and obs["connected"] and not any(o[0] == "shut" for o in case["ops"]):
         if txbs or ksent != queued:
             return "healthy connection serviced len(txbs) times did not deliver everything"
     return None
@@ -900,7 +900,7 @@ def gen_case(rng, tier):
     if is_client(kind) and rng.random() < 0.4:
         case["bufs"] = {"txpre": rng.choice(["", "", "", hx(rng, rng.randint(1, 10))])}
         case["ops"] = ops = [["txo", o[1]] if o[0] == "tx" and rng.random() < 0.5 else o for o in ops]
-    if not faulty and rng.random() < 0.3:
+    if not faulty and not any(o[0] == "shut" for o in ops) and rng.random() < 0.3:
         total = sum(len(o[1]) // 2 for o in ops if o[0] in ("tx", "txo")) + len(preload(case))
         if total <= 120:
             case["ops"] = ops + [["connect"]] + [["sends", ["acc", rng.randint(1, 4)]] for _ in range(total)]
@@ -934,7 +934,7 @@ def classify(case, obs, why):
 def shrink(case):
     ops = case["ops"]
     for i in range(len(ops)):
-        yield dict(case, ops=ops[:i] + ops[i + 1:])
+        yield dict(case, ops=ops[:i] + ops[i + 1:], drain=False)
     for i, o in enumerate(ops):
         if o[0] == "tx" and len(o[1]) > 2:
             yield dict(case, ops=ops[:i] + [["tx", o[1][:len(o[1]) // 4 * 2]]] + ops[i + 1:])
